@@ -382,7 +382,7 @@ impl Check for C10 {
         let p = pool(ctx.tier);
         let (ll, lo) = long_family();
         ctx.rule = format!(
-            "all ordered pairs over a pool of {} values (atoms null/true/false/0/1/\"\"/\"a\"/a function; every list of length <= 2 and object over keys a, b of atoms; the same one level deeper over a sub-pool{}) x 3 construction patterns (built twice; every equal container sub-term built once and referenced everywhere, across and inside the operands; object keys written in reverse order) x 4 programs (u == v then u != v then both values printed; v == u; u != v first; the === matrix); plus all pairs of lists over {{0,1}} of length <= 5 ({}) and of objects over every subset of four keys with values in {{0,1}} ({}); symmetry, negation, sharing-independence and transitivity are checked on the table of the subject's own answers; non-trivial = all",
+            "all ordered pairs over a pool of {} values (atoms null/true/false/0/1/\"\"/\"a\"/a function; every list of length <= 2 and object over keys a, b of atoms; the same one level deeper over a sub-pool{}) x 3 construction patterns (built twice; every equal container sub-term built once and referenced everywhere, across and inside the operands; object keys written in reverse order) x 4 programs (u == v then u != v then both values printed; v == u; u != v first; the === matrix); plus all pairs of lists over {{0,1}} of length <= 5 ({}) and of objects over every subset of four keys with values in {{0,1}} ({}); plus the identity of two containers obtained from every pair of 12 list and 6 object producers (literal, +, range, range read, collect, rest parameter, spread, call); symmetry, negation, sharing-independence and transitivity are checked on the table of the subject's own answers; non-trivial = all",
             p.len(),
             if ctx.tier == Tier::Thorough { ", and a third level over 4 values" } else { "" },
             ll.len(),
@@ -531,6 +531,54 @@ impl Check for C10 {
                     }
                 }
             }
+        }
+        // identity of separately produced containers: every pair of producers of an equal value
+        // (literals, operators, ranges, range reads, collects, rest parameters, spreads, calls)
+        {
+            let setup = "fn rest(..r) {\nreturn r\n}\nfn fresh() {\nreturn []\n}\nfn freshobj() {\nreturn {}\n}\nfn id(p) {\nreturn p\n}\nxs := [1]\nob := {\"a\": 1}\n";
+            let lists: [(&str, &str); 12] = [
+                ("@ := []", "literal"),
+                ("@ := [] + []", "+"),
+                ("@ := 0 .. 0", "range"),
+                ("@ := xs[0:0]", "range read"),
+                ("@ := xs[1:]", "open range read"),
+                ("[..@] := []", "collect"),
+                ("[_, ..@] := xs", "collect after one"),
+                ("@ := rest()", "rest parameter"),
+                ("@ := rest([]..)", "rest parameter of an empty spread"),
+                ("@ := [[]..]", "spread"),
+                ("@ := fresh()", "call"),
+                ("@ := id([])", "argument"),
+            ];
+            let objs: [(&str, &str); 6] = [
+                ("@ := {}", "literal"),
+                ("{..@} := {}", "collect"),
+                ("{a, ..@} := ob", "collect after one"),
+                ("@ := {{}..}", "spread"),
+                ("@ := freshobj()", "call"),
+                ("@ := id({})", "argument"),
+            ];
+            let mut cases = vec![];
+            for group in [&lists[..], &objs[..]] {
+                for (p, pn) in group {
+                    for (q, qn) in group {
+                        let src = format!(
+                            "{}{}\n{}\nprint(u === v)\nprint(v === u)\nprint(u !== v)\nprint(u === u)\nprint(u == v)\nw := u\nprint(w === u)\nprint(w !== u)\n",
+                            setup,
+                            p.replace('@', "u").replace("{a,", "{a,").replace("{a, ..u}", "{a, ..u}"),
+                            q.replace('@', "v").replace("{a, ..v} := ob", "{\"a\": a2, ..v} := ob")
+                        );
+                        cases.push(Case::new(src, 9, format!("identity of two containers produced by {} and {}", pn, qn)));
+                    }
+                }
+            }
+            ctx.judge(cases, |c, r, o| {
+                if o.stdout != r.stdout || r.is_ok() != (o.class == Class::Ok) {
+                    viol("identity", format!("{}: printed {:?} ({:?}), reference {:?}", c.meta, o.out_str(), o.class, String::from_utf8_lossy(&r.stdout)))
+                } else {
+                    Verdict::Pass
+                }
+            })?;
         }
         ctx.guard("pairs with differently-typed corresponding positions were explored", pairs_done > 0);
         ctx.extra.insert(
